@@ -490,7 +490,6 @@ func checkTemplateProvenance(prog *core.Program, r6 *core.RuleRun, c *tplCache, 
 	}
 }
 
-
 // checkInsertUnconditional (R04.4, also a premise of C03/C06: the decoder gets the template as last announced): every
 // path through the cache's insert reaches the map store, and what is stored is the record passed in.
 func checkInsertUnconditional(r4 *core.RuleRun, c *tplCache) {
